@@ -150,6 +150,18 @@ SetSize(p, l) ==
             /\ UNCHANGED <<rot, chir, fv, ecache>>
     /\ Log
 
+\* obj.p = current * (1 + 3e-6)^Degree(p): a target that differs from the current value only in the sixth digit is still a
+\* target (a setter must not decide by np.isclose that the shape "already has" the requested size).  The abstract scale s keeps
+\* its value (the bucket is the same); the harness tracks the exact factor 1000003/1000000.
+NearLambda == <<1000003, 1000000>>
+SetSizeNear(p) ==
+    /\ p \in SizeProps
+    /\ Refusal(p) = "none"
+    /\ stale' = Apply("rescale")
+    /\ ret' = Ok("setnear", <<p, NearLambda>>)
+    /\ UNCHANGED <<s, cen, rot, chir, rr, fv, ecache>>
+    /\ Log
+
 \* obj.p = 0, a negative number or nan: refused, nothing changes
 SetBad(p, b) ==
     /\ p \in SizeProps
@@ -180,6 +192,13 @@ SetCoreSize(p, l) ==
     /\ stale' = Apply("rescale")
     /\ ret' = Ok("coreset", <<p, l>>)
     /\ UNCHANGED <<cen, rot, chir, fv, ecache>>
+    /\ Log
+
+\* obj.centroid = a malformed value (two or four numbers, a None entry, a matrix): whatever exception it raises - or if the
+\* class has no centroid setter - the shape is left as it was.  (Acceptance is not modelled: the harness stops such a history.)
+SetCentroidBad(b, alias) ==
+    /\ ret' = Raised("centroidbad", <<b, alias>>, "any")
+    /\ UNCHANGED <<s, cen, rot, chir, rr, fv, ecache, stale>>
     /\ Log
 
 \* rounding radius of the spheropolytopes: obj.radius = radius * l  (not a similarity), l = 0 allowed
@@ -245,8 +264,10 @@ ToHoomd == /\ Cls \notin {"Circle", "Ellipse"}      \* Circle and Ellipse have n
            /\ UNCHANGED <<s, cen, rot, chir, rr, fv, ecache>> /\ Log
 
 Next == \/ \E p \in SizeProps, l \in Lambdas : SetSize(p, l)
+        \/ \E p \in SizeProps : SetSizeNear(p)
         \/ \E p \in SizeProps, b \in {"zero", "negative", "nan"} : SetBad(p, b)
         \/ \E k \in {"origin", "target", "nudge"}, a \in {"centroid", "center"} : SetCentroid(k, a)
+        \/ \E b \in {"short", "long", "none", "matrix"}, a \in {"centroid", "center"} : SetCentroidBad(b, a)
         \/ \E l \in Lambdas \cup {<<0, 1>>} : SetRadius(l)
         \/ \E p \in CoreSizeProps, l \in Lambdas : SetCoreSize(p, l)
         \/ SetRadiusNegative
@@ -262,6 +283,8 @@ FailAtomic == [][ret'.exc # "none" => St' = St]_vars                            
 SetterSimilar == [][ret'.op = "set" /\ ret'.exc = "none" =>
                       /\ s' = QMul(s, ret'.args[2])                             \* pure similarity by lambda
                       /\ rot' = rot /\ chir' = chir /\ fv' = fv /\ rr' = rr]_vars
+NearSetterSimilar == [][ret'.op = "setnear" => ret'.exc = "none" /\ [St' EXCEPT !.stale = {}] = [St EXCEPT !.stale = {}]]_vars
+BadCentreAtomic == [][ret'.op = "centroidbad" => St' = St]_vars
 BadTargetRefused == [][ret'.op = "setbad" => ret'.exc \in {"ValueError", "NotImplementedError", "RuntimeError"} /\ St' = St]_vars
 QueryPure == [][ret'.op = "to_hoomd" => [St' EXCEPT !.stale = {}] = [St EXCEPT !.stale = {}]]_vars
 ViewSt == St
